@@ -49,6 +49,7 @@ func (r *schedReqs) Required(m V) ([]V, error) {
 }
 
 func runSchedules(r *core.Run) {
+	sched.Stop = r.Expired // soft time budget: explorations end with Complete=false
 	quickBound, budget := 2, 150000
 	if r.Thorough() {
 		quickBound, budget = 3, 3000000
